@@ -714,6 +714,8 @@ pub fn check(pid: &str, seed: u64) -> Value {
             // small systems whose values are not multiples of 0.01 kWh
             Box::new(|c| format!("DEMANDA,ACS,{}\n1,CONSUMO,ACS,GASNATURAL,{}\n2,CONSUMO,ACS,BIOMASA,{}\n2,SALIDA,ACS,{}\n3,CONSUMO,ACS,BIOMASADENSIFICADA,{}\n3,SALIDA,ACS,{}", 1.0 * c, 0.6 * c, 0.3 * c, 0.2525 * c, 0.2 * c, 0.1225 * c)),
             Box::new(|c| format!("DEMANDA,ACS,{}\n1,CONSUMO,ACS,ELECTRICIDAD,{}\n1,CONSUMO,ACS,EAMBIENTE,{}\n1,AUX,{}\n2,PRODUCCION,EL_INSITU,{}", 2.0 * c, 0.555 * c, 1.445 * c, 0.1234 * c, 0.3 * c)),
+            // a DHW demand of 0.6 kWh a year (a single tap in a large hall), twelve months of 0.05
+            Box::new(|c| { let m = |v: f32| (0..12).map(|_| format!("{}", v * c)).collect::<Vec<_>>().join(","); format!("DEMANDA,ACS,{}\n1,CONSUMO,ACS,ELECTRICIDAD,{}\n1,CONSUMO,ACS,EAMBIENTE,{}", m(0.05), m(0.02), m(0.03)) }),
             Box::new(|c| format!("DEMANDA,ACS,{},{}\n1,CONSUMO,ACS,GASNATURAL,{},{}\n2,CONSUMO,ACS,BIOMASA,{},{}\n2,SALIDA,ACS,{},{}\n2,AUX,{},{}", 0.5 * c, 0.5 * c, 0.3 * c, 0.3 * c, 0.15 * c, 0.15 * c, 0.0625 * c, 0.0645 * c, 0.0125 * c, 0.0135 * c)),
         ];
         // heat pumps for DHW and heating, PV and a small biomass cogenerator: also scaled DOWN (every scaled value stays >= 0.01 kWh)
